@@ -46,9 +46,56 @@ def leaf_queries(I, a, leaf, py, sl):
     WANT = {0: [], 1: [1], 2: [1, 2], 3: [1, 2], 4: [1], 5: [1, 2, 3]}
     got = mods['m'][5] if 'm' in mods and len(mods['m']) > 5 else None
     for code, idxs in WANT.items():
-        want = [['P%d' % i, 'E%d' % i] for i in idxs]
+        want = [['const P%d: u8 = 1;' % i, 'const E%d: u8 = 2;' % i] for i in idxs]
         if got != want: bad.append(a[7] == code)
     return [Query('accepted-implies-no-collision-and-every-item-in-its-module', z3.Or(*bad))]
+
+
+def file_check(summ, files, args):
+    """file-level clauses on an emitted witness (concrete, with the real backend): one file per module at `<module path>.rs`, every
+    declared item exactly once and only in the file of its module, rust backend blocks (prologue before, epilogue after) each once"""
+    import re as _re
+    problems = []
+    mods = {m[1]: m for m in summ[1]}
+    want_files = set()
+    for mp, m in mods.items():
+        if mp == '': continue
+        fn = mp.replace('::', '/') + '.rs'
+        want_files.add(fn)
+        if fn not in files: problems.append('no file %s for module %s' % (fn, mp)); continue
+        text = files[fn]
+        for it in m[3]:
+            name = it[1].split('::')[-1]
+            kind = it[4][3][0] if it[4][0] == 'resolved' else None
+            if it[3] != 'defined' or kind is None: continue
+            kw = 'struct' if kind == 'type' else 'enum'
+            n_here = len(_re.findall(r'\b%s\s+%s\b' % (kw, _re.escape(name)), text))
+            if n_here != 1: problems.append('%s %s occurs %d times in %s' % (kw, name, n_here, fn))
+            for other, otext in files.items():
+                if other == fn: continue
+                om = mods.get(other[:-3].replace('/', '::'))
+                own_names = [x[1].split('::')[-1] for x in om[3]] if om else []
+                if name not in own_names and _re.search(r'\b%s\s+%s\b' % (kw, _re.escape(name)), otext):
+                    problems.append('%s %s also emitted in %s' % (kw, name, other))
+        for pro, epi in m[5]:
+            for t in (pro, epi):
+                if t is None: continue
+                ident = _re.search(r'const (\w+)', t)
+                if ident and len(_re.findall(r'\bconst\s+%s\b' % ident.group(1), text)) != 1:
+                    problems.append('backend text `%s` occurs %d times in %s' % (t, len(_re.findall(r'\bconst\s+%s\b' % ident.group(1), text)), fn))
+        # prologues precede the items, epilogues follow them, both in source order
+        pos = [text.find('const P%d' % i) for i in (1, 2, 3) if 'const P%d' % i in text] + [text.find('struct ')] + \
+              [text.find('const E%d' % i) for i in (1, 2, 3) if 'const E%d' % i in text]
+        if m[5] and pos != sorted(pos): problems.append('backend blocks out of order in %s' % fn)
+        for cb in ('CP', 'CE'):
+            if _re.search(r'\b%s\b' % cb, text): problems.append('text of another backend in %s' % fn)
+    extra = set(files) - want_files
+    if extra: problems.append('unexpected files %s' % sorted(extra))
+    return problems
+
+
+FILE_CHECK = {'template': 't_items', 'max_quick': 24, 'max_thorough': 64, 'fn': file_check,
+              'fixed': [[8, 0, 0, 0, 0, 1, 0, 5], [8, 0, 0, 0, 0, 1, 0, 3], [8, 0, 0, 0, 0, 0, 0, 4]]}
 
 
 def region_env(a, sl): return {}
